@@ -16,3 +16,11 @@ CONTRACTS += R.select(_W.CHAIN_CONTRACTS, {"C02"})
 CALLEES.update({k: v for k, v in _W.CHAIN_CALLEES.items() if k not in CALLEES or "run_worker" in k or "read_batch" in k})
 LIB.update(_W.LIB)
 LEMMAS = ["Partition.lean"]
+
+
+def EXTRA():
+    # the public entry point hands its options (how many prior samples to use, how many posterior samples to keep, ...) to the function that
+    # does the work, on both paths
+    from jvc import effects
+    return effects.check_option_forwarding(["thejoker.thejoker.TheJoker.rejection_sample"], PROPERTY,
+                                           must_flow=[("n_prior_samples", "rejection_sample_inmem", "prior_samples_batch")])
